@@ -65,9 +65,11 @@ type pubCfg struct {
 	rules    []throttle.VerifC16Rule
 	exp      time.Duration                     // 0 = the default (30m)
 	distr    *throttle.LimitDistributionConfig // nil = none
-	noTime   bool                              // time_field "": every event is timed by the real time.Now()
-	keyField string                            // redis_backend_config.limiter_key_field (must be inert under the memory backend)
-	rawFmt   bool                              // time_field_format given as a Go layout (the text of time.RFC3339Nano) instead of an alias
+	// limit_distribution of rules[i] (which=11); shorter than rules = none for the rest
+	ruleDistr []throttle.LimitDistributionConfig
+	noTime    bool   // time_field "": every event is timed by the real time.Now()
+	keyField  string // redis_backend_config.limiter_key_field (must be inert under the memory backend)
+	rawFmt    bool   // time_field_format given as a Go layout (the text of time.RFC3339Nano) instead of an alias
 }
 
 // the same configuration steps as VerifC16NewPlugin (throttle_field "k", time_field "time", in-memory backend).
@@ -108,6 +110,9 @@ func newPub(pc pubCfg) *pubInst {
 	}
 	if pc.distr != nil {
 		config.LimitDistribution = *pc.distr
+	}
+	for i, d := range pc.ruleDistr {
+		config.Rules[i].LimitDistribution = d
 	}
 	params := &pipeline.ActionPluginParams{
 		PluginDefaultParams: pipeline.PluginDefaultParams{
